@@ -38,6 +38,8 @@ func runC06(c *core.Ctx) {
 	c.MinInstances("C06-FALLBACK", 2)
 	c.MinInstances("C06-GSM7", 200)
 	importRules(c, "C08", "C06-GSM7", nil)
+	c.MinInstances("C06-CODEC", 30)
+	importRulesFn(c, "C05", "C06-CODEC", func(sub *core.Ctx) { cs := codecRules(sub); asciiPredicate(sub); selectRules(sub, cs) }, nil)
 	c.Trust("C05/C08: each codec's Decode inverts its Encode", "gsm7encoding.Pack/Unpack (C08)")
 	c.NotDecided("that decoding the concatenated payloads reproduces the text (follows from tiling + codec inversion; not executed)")
 	g := extractGenericSplit(c)
